@@ -688,6 +688,7 @@ func init() {
 			{Name: "error-texts", N: c03ErrTextsN, Run: c03ErrTexts, Exhaustive: true},
 			{Name: "slice-lattice", N: c03SliceLatticeN, Run: c03SliceLattice, Exhaustive: true},
 			{Name: "long", N: func(c *Ctx) int { return 12 }, Run: c03Long, Exhaustive: true},
+			{Name: "byte-runs", N: c03RunsN, Run: c03Runs, Exhaustive: true},
 			{Name: "nesting", N: c03NestN, Run: c03Nest, Exhaustive: true},
 			{Name: "pad-huge", N: func(c *Ctx) int { return len(c03PadHuge) }, Run: c03Pad, Exhaustive: true},
 			{Name: "deep-nesting", N: func(c *Ctx) int { return len(c03DeepForms) }, Run: c03Deep, Exhaustive: true},
@@ -727,4 +728,32 @@ func hasHuge(v any) bool {
 		return false
 	}
 	return hugeNumber(v)
+}
+
+// ---- runs of one byte value
+//
+// Error messages quote the offending text, and code that shortens or escapes that text walks
+// over bytes the lexer never validated.  Every byte value (and a few two- and three-byte patterns of
+// continuation, lead and impossible bytes) is repeated 1..70000 times, alone, after a valid prefix
+// and before a valid suffix; the calls must return and every error must format.
+var c03RunLens = []int{1, 2, 3, 4, 63, 64, 65, 127, 128, 129, 255, 256, 257, 1023, 1024, 1025, 1026, 1027, 4095, 4096, 4097, 70000}
+
+var c03RunPatterns = []string{"\x80\xbf", "\x80\xbf\x9a", "\xc3", "\xe2\x82", "\xf0\x9f\x98", "\xc3\x28", "\xed\xa0\x80", "\xf4\x90\x80\x80", "\xc0\xaf", "\xef\xbf\xbd", "\xef\xbb\xbf", "é", " ", "\U0001F600", "\\", "\\u", "\\ud83d", "'\\", "\"\\", "`\\"}
+
+func c03RunsN(c *Ctx) int { return (256 + len(c03RunPatterns)) * len(c03RunLens) }
+
+func c03Runs(c *Ctx, idx int) {
+	n := c03RunLens[idx%len(c03RunLens)]
+	k := idx / len(c03RunLens)
+	var unit string
+	if k < 256 {
+		unit = string([]byte{byte(k)})
+	} else {
+		unit = c03RunPatterns[k-256]
+	}
+	run := strings.Repeat(unit, (n+len(unit)-1)/len(unit))
+	for _, t := range []string{run, "a." + run, run + ".a", "'" + run + "'", "\"" + run + "\"", "`\"" + run + "\"`", "a[?b == '" + run, "$" + run, "nosuch" + run + "(a)", "a." + run + "x"} {
+		c.CheckNoPanic(t, map[string]any{"a": map[string]any{"a": "x"}}, map[string]string{"family": "byte-runs", "unit": fmt.Sprintf("%q", unit), "length": fmt.Sprint(n)})
+	}
+	c.Nontrivial("byte-runs", fmt.Sprint(idx))
 }
